@@ -147,7 +147,10 @@ Fixpoint qp_decode (col : nat) (bol : bool) (d : bytes) : option bytes :=
   | [] => if Nat.eqb col 0 then Some [] else None
   | c :: r =>
       if bol && N.eqb c DOT then
-        match r with [] => None | _ => qp_decode col false r end
+        match r with
+        | [] => None
+        | c2 :: _ => if N.eqb c2 CR then None else qp_decode col false r     (* ".CRLF" would end the data *)
+        end
       else if N.eqb c CR then
         match r with
         | c2 :: r2 => if N.eqb c2 LF && Nat.leb col QP_MAXLINE then
@@ -182,17 +185,14 @@ Fixpoint qp_decode (col : nat) (bol : bool) (d : bytes) : option bytes :=
       else None
   end.
 
-(** "a final CRLF added if missing" *)
-Definition with_final_crlf (d : bytes) : bytes :=
-  match d with
-  | [] => []
-  | _ => if ends_crlf d then d else d ++ CRLF
-  end.
+(** C07 for a body that was recoded: the wire octets [wire] (complete lines, dots still stuffed)
+    decode to the normalised original, up to the CRLF that ends the last line ("a final CRLF added
+    if missing": when the original ends without line end the receiver may get it with or without) *)
+Definition same_upto_final_crlf (d n : bytes) : Prop := d = n \/ d ++ CRLF = n.
+Definition same_upto_final_crlf_b (d n : bytes) : bool := bytes_eqb d n || bytes_eqb (d ++ CRLF) n.
 
-(** C07 for a body that was recoded: the wire octets [wire] (complete lines) decode to the
-    normalised original, up to the CRLF that ends the last line *)
 Definition qp_roundtrip (orig wire : bytes) : Prop :=
-  exists d, qp_decode 0 true wire = Some d /\ with_final_crlf d = normalise orig.
+  exists d, qp_decode 0 true wire = Some d /\ same_upto_final_crlf d (normalise orig).
 
 (* ------------------------------------------------------------------ when must a message be recoded *)
 (** octets that cannot go into a 7-bit transfer as they are: NUL and everything above 127
